@@ -2,7 +2,7 @@
 work budget, in a process of its own (the parent kills it on a hard hang).
 
 usage: python c13_worker.py <jobs.jsonl> <results.jsonl>
-job:    {"id": str, "pdf": hex, "entries": ["text"|"pages"|"xml", ...], "budget": int, "wall": float}
+job:    {"id": str, "pdf": hex, "entries": ["text"|"pages"|"xml"|"text_nc"|"pages_nc"|"xml_nc", ...], "budget": int, "wall": float}
 result: {"id", "entry", "cls", "exc", "where", "events", "msg"}   (one line per entry, flushed;
         a line {"id","entry","cls":"start"} is written before each run so a kill is attributable)
 
@@ -116,13 +116,37 @@ class Meter:
 
 def run_entry(entry: str, data: bytes) -> None:
     from pdfminer import high_level as H
-    if entry == "text":
-        H.extract_text(io.BytesIO(data))
-    elif entry == "pages":
-        for _ in H.extract_pages(io.BytesIO(data)):
+    # "<entry>_nc": the same entry point with the document / resource caches switched off (caching=False,
+    # disable_caching=True): every resolution then yields fresh objects, so state keyed by identity never matches
+    caching = not entry.endswith("_nc")
+    base = entry[:-3] if entry.endswith("_nc") else entry
+    if base in ("text_la", "html", "tag", "xml_img"):
+        # rarely used options of the same entry points
+        from pdfminer.layout import LAParams
+        if base == "text_la":
+            H.extract_text(io.BytesIO(data), laparams=LAParams(detect_vertical=True, all_texts=True, boxes_flow=None),
+                           maxpages=3, page_numbers=[0, 1, 2, 5], password="x")
+        elif base == "xml_img":
+            import shutil
+            import tempfile
+            d = tempfile.mkdtemp(prefix="c13img-")
+            try:
+                H.extract_text_to_fp(io.BytesIO(data), io.BytesIO(), output_type="xml", codec="utf-8", output_dir=d,
+                                     laparams=LAParams(), strip_control=True, rotation=90)
+            finally:
+                shutil.rmtree(d, ignore_errors=True)
+        else:
+            H.extract_text_to_fp(io.BytesIO(data), io.BytesIO(), output_type=base, codec="utf-8", laparams=LAParams(),
+                                 scale=2.0, layoutmode="exact")
+        return
+    if base == "text":
+        H.extract_text(io.BytesIO(data), caching=caching)
+    elif base == "pages":
+        for _ in H.extract_pages(io.BytesIO(data), caching=caching):
             pass
-    elif entry == "xml":
-        H.extract_text_to_fp(io.BytesIO(data), io.BytesIO(), output_type="xml", codec="utf-8")
+    elif base == "xml":
+        H.extract_text_to_fp(io.BytesIO(data), io.BytesIO(), output_type="xml", codec="utf-8",
+                             disable_caching=not caching)
     else:
         raise ValueError(entry)
 
